@@ -24,7 +24,7 @@ fn spec() -> Spec {
         rule: "each case = non-degenerate robot with dof 5 or 6 (64 sign patterns, offsets) bare / behind an axial tool / on an arbitrary base / both; pose = reference FK of a generated q; J6 values 0, +-pi, 1e3, random; inverse_5dof and inverse_continuing_5dof on every robot, inverse and inverse_continuing additionally on dof-5 robots; every answer: tool point, tool axis, J6 bit-identical to the caller's value; generating J1..J5 present when non-singular; never empty on a pose produced by the robot's own FK; non-trivial = call returned >= 1 vector; distinct = hash(robot, stack, q, j6, entry) Workload additions: a quarter of the robots with limits on J6 only, asymmetric about zero; the sentinel's own J6 entry (0, up to whole turns); previous = an answer for the same tool point with the axis turned by 5..30 degrees; poses whose wrist centre lies exactly on the joint-2 axis of the other shoulder branch; dof-5 robots with an unblocked sixth sign. Rounds 7-9: poses inside the wrist band; postures 1.2e-5..1e-3 rad from the elbow singularity (generating-vector clause down to an elbow measure of 1e-5); J6 ranges wrapping the +-180 degree seam; targets with an exactly zero coordinate.",
         assumptions: vec![
             "accuracy 1e-6 m / 1e-6 rad plus slack 1e-9 + 1e-12*reach",
-            "generating J1..J5 expected only when |sin t5| and the wrist-centre/axis-1 distance (relative to reach) are >= 1e-3 and |sin(t3+psi3)| >= 1e-5 (the closed form is exact up to rounding, so next to the elbow singularity the originating vector is still reproduced)",
+            "generating J1..J5 expected only when |sin t5| and the wrist-centre/axis-1 distance (relative to reach) are >= 1e-3 and |sin(t3+psi3)| >= 1e-3, or >= 1e-5 with |sin t5| >= 0.05 and a match tolerance of 5e-6 rad (the closed form is exact up to rounding, so next to the elbow singularity the originating vector is still reproduced unless the wrist is ill-conditioned as well)",
             "with the CONSTRAINT_CENTERED sentinel ([NaN,0,0,0,0,0]) as previous the caller's J6 is the sentinel's own entry 0, accepted up to whole turns (the solver normalises angles near the constraint centres)",
         ],
         minimums: vec![("oracle_evals", 10_000_000, 250_000_000), ("dof5_plain_inverse_calls", 100_000, 2_500_000), ("answers_checked", 3_000_000, 70_000_000)],
@@ -164,7 +164,9 @@ fn run_case(_kind: &str, idx: u64, rng: &mut Rng, mon: &mut Mon, _tier: Tier) {
     let m = sing_measures(&rp, &q);
     // (the closed form is exact up to rounding, so next to the ELBOW singularity the originating vector is still
     // reproduced to ~1e-11/elbow; it is expected down to an elbow measure of 1e-5. Wrist and shoulder keep 1e-3.)
-    let nonsing = m.wrist.min(m.shoulder) >= 1e-3 && m.elbow >= 1e-5;
+    // (... provided the wrist is well away from its own singularity: the two ill-conditionings multiply)
+    let nonsing = m.wrist.min(m.shoulder) >= 1e-3 && (m.elbow >= 1e-3 || (m.elbow >= 1e-5 && m.wrist >= 0.05));
+    let match_tol = if m.elbow >= 1e-3 { 1e-6 } else { 5e-6 };
     let reach = rp.reach() + layers.iter().map(|l| match l { Layer::Tool(f) | Layer::Base(f) | Layer::Frame(f) => norm(f.p), _ => 0.0 }).sum::<f64>();
     // (the 5-DOF solvers cross-check the flange position only; behind a tool the axis accuracy acts on its length)
     let lever: f64 = layers.iter().map(|l| match l { Layer::Tool(f) | Layer::Frame(f) => norm(f.p), _ => 0.0 }).sum();
@@ -241,7 +243,7 @@ fn run_case(_kind: &str, idx: u64, rng: &mut Rng, mon: &mut Mon, _tier: Tier) {
                     mon.held();
                 }
             }
-            if (0..5).all(|j| circ_dist(s[j], q[j]) <= 1e-6) {
+            if (0..5).all(|j| circ_dist(s[j], q[j]) <= match_tol) {
                 found_generating = true;
             }
         }
